@@ -729,7 +729,7 @@ def run(tier, seed, acc):
     for d in pmap("mc.props.c01", "shard", jobs):
         acc.merge(d)
     c = acc.counts
-    if c.get("cases_nontrivial", 0) < 100:
+    if not acc.viol and (c.get("cases_nontrivial", 0) < 100):
         raise HarnessError(f"C01 non-vacuity floor missed: {c}")
     cov = {
         "states": c["cases"],
